@@ -173,10 +173,12 @@ class Check(object):
         if sample is not None and len(self.samples) < 3:
             self.samples.append(sample)
 
-    def violation(self, sig, detail, scenario):
-        """A requirement-layer violation observed on the real code."""
+    def violation(self, sig, detail, scenario, klass=None):
+        """A requirement-layer violation observed on the real code.  `klass` is the scenario-class
+        signature (computed from the input only) that known findings are matched on."""
+        key = klass if klass is not None else sig
         for k in self.known:
-            if k["sig"] == sig or (k["sig"].endswith("*") and sig.startswith(k["sig"][:-1])):
+            if k["sig"] == key or (k["sig"].endswith("*") and key.startswith(k["sig"][:-1])):
                 if k["sig"] not in self.known_hits:
                     self.known_hits[k["sig"]] = {"what": k["what"], "count": 0, "example": detail}
                 self.known_hits[k["sig"]]["count"] += 1
